@@ -4,6 +4,6 @@ INVARIANT SyntaxIffError
 CONSTRAINT ExportCase
 CHECK_DEADLOCK FALSE
 CONSTANTS NLay = 2
- NameSet = {2, 5}
+ NameSet = {3, 6}
  Shapes = {"bb", "ns", "sn", "nn", "ss"}
  Export = FALSE
